@@ -65,6 +65,7 @@ pub fn stages(id: &str) -> Vec<Stage> {
         ],
         "C02" => vec![
             st(C02 { params: Params::conflict_heavy().env_override(), stage: "main", variants: 4 }, 15_000, 600_000, Release),
+            st(C02 { params: Params::assertion_heavy(), stage: "assertions", variants: 3 }, 10_000, 400_000, Release),
         ],
         "C03" => vec![
             st(C03 { params: Params::conflict_heavy(), stage: "main" }, 20_000, 800_000, Release),
